@@ -58,7 +58,8 @@ def downTick (price : Int) (prec : Nat) : Int :=
 /-- `LowestTick` -/
 def lowestTick (prec : Nat) : Int := 10 ^ prec
 /-- `HighestTick` -/
-def highestTick (prec : Nat) : Int := priceToDownTick (2 ^ 300 - 1) prec
+def highestTick (prec : Nat) : Int :=
+  priceToDownTick 2037035976334486086268445688409378161051468393665936250636140449354381299763336706183397375 prec   -- 2^300 - 1
 
 /-- `TickToIndex` -/
 def tickToIndex (price : Int) (prec : Nat) : Int :=
